@@ -25,6 +25,9 @@ def quiet(f, *a, **k):
         return f(*a, **k)
 
 
+_LINKS = [0]
+
+
 def _takes_positional_noise_var(obj):
     import inspect
     try:
@@ -121,6 +124,10 @@ def run(run):
                     return x
                 model = ChannelCodeModel(encoder=enc, constraint=IdentityConstraint(), modulator=mod, channel=LambdaChannel(chan), demodulator=dem, decoder=dec)
                 model.eval()
+                _LINKS[0] += 1
+                if _LINKS[0] % 3 == 0:
+                    model.float()          # every third link after the precision protocol of nn.Module (a no-op for a float32 pipeline)
+                    cfg["protocol"] = "model.float()"
                 hooks = [enc.register_forward_hook(lambda m_, i, o: cap.__setitem__("enc", o.detach().clone())),
                          mod.register_forward_hook(lambda m_, i, o: cap.__setitem__("mod", o.detach().clone())),
                          dem.register_forward_hook(lambda m_, i, o: cap.__setitem__("dem", o.detach().clone()))]
